@@ -6,6 +6,7 @@
 //!   vcheck worker ... / vcheck one ...     internal
 
 mod c02;
+mod c09;
 mod c19;
 mod compile;
 mod engine;
@@ -20,7 +21,7 @@ mod wire;
 use engine::{Check, Tier};
 
 fn registry() -> Vec<&'static dyn Check> {
-    vec![&c02::C02, &c19::C19]
+    vec![&c02::C02, &c09::C09, &c19::C19]
 }
 
 fn find(id: &str) -> &'static dyn Check {
